@@ -513,7 +513,7 @@ fn compress_backtrack(outputdata: &mut Vec<u8>, buffer: &Buffer, fonts: &[usize]
                             }
                         }
                         Compression::Full => {
-                            end_run = cur != run_ch;
+                            end_run = cur != run_ch || cur.get_font_page() != run_ch.get_font_page();
                         }
                     }
                 }
